@@ -98,6 +98,22 @@ fn check_varint_bytes(ctx: &mut Ctx, b: &[u8]) {
             Some((v, len)) if !strict || v_len(v) == len => Some((v, len)),
             _ => None,
         };
+        // the same bytes through a reader that returns one byte per call: value, verdict and consumed length
+        // must not depend on how the reader chunks its data
+        if b.len() > 1 {
+            let mut sr = crate::mon::serde1::ShortReader { data: b, pos: 0, step: 1 };
+            let r1 = guarded(|| read_varint(&mut sr, strict));
+            let same = match (&r, &r1) {
+                (Ok(x), Ok(Ok(y))) => x == y && sr.pos as u64 == c.position(),
+                (Err(_), Ok(Err(_))) => true,
+                _ => false,
+            };
+            if !same {
+                ctx.violation("varint-decode-depends-on-read-chunking", json!({"bytes": hex::encode(b), "strict": strict, "cursor": format!("{r:?}"), "one_byte_reads": format!("{r1:?}")}));
+                return;
+            }
+            ctx.count("varint_short_read_comparisons");
+        }
         match (&r, expect) {
             (Ok(v), Some((mv, len))) if *v == mv && c.position() as usize == len => {}
             (Err(_), None) => {}
@@ -357,6 +373,26 @@ fn check20_robust(ctx: &mut Ctx, r: &mut Rng, blob: &[u8]) {
         ctx.violation("serde2026-decoder-panicked", json!({"input": input()}));
         return;
     };
+    // the same blob through a reader that returns a few bytes per call: same verdict, same tree, same length
+    {
+        let mut a2 = Allocator::new();
+        let mut sr = crate::mon::serde1::ShortReader { data: blob, pos: 0, step: 1 + blob.len() % 3 };
+        match guarded(|| deserialize_2026_from_stream(&mut a2, &mut sr, max_atom_len, strict)) {
+            Ok(r1s) => {
+                let same = match (&r1, &r1s) {
+                    (Ok(n1), Ok(n2)) => crate::model::nodes_equal(&a, *n1, &a2, *n2) && sr.pos as u64 == cur.position(),
+                    (Err(_), Err(_)) => true,
+                    _ => false,
+                };
+                if !same {
+                    ctx.violation("serde2026-decode-depends-on-read-chunking", json!({"input": input(), "cursor_ok": r1.is_ok(), "short_reads_ok": r1s.is_ok(),
+                        "consumed_cursor": cur.position(), "consumed_short_reads": sr.pos}));
+                }
+                ctx.count("serde2026_short_read_comparisons");
+            }
+            Err(_) => ctx.violation("serde2026-decoder-panicked", json!({"input": input(), "entry": "short reads"})),
+        }
+    }
     // body-only entry point on the same bytes minus prefix
     if blob.len() >= 6 {
         let mut b = Allocator::new();
